@@ -25,7 +25,26 @@ pub static DEF: ScenDef = ScenDef {
     shrink_cfg,
     shrink_op,
     worker_init,
+    crash_owner,
 };
+
+/// an abort or hang inside a typed reader parsing stored bytes, or inside the decompressor, is
+/// the parsers' / codec's subject (C05, C20, C11) exactly like a panic there: not charged here
+fn crash_owner(prop: &str, op: &Value) -> String {
+    match op["op"].as_str().unwrap_or("") {
+        "ReadTex" => "C20".to_string(),
+        "ReadArchive" | "ReadText" | "ReadFe9Arc" | "ReadArc" => "C05".to_string(),
+        "Read" => {
+            let p = op["path"].as_str().unwrap_or("");
+            if p.ends_with(".lz") || p.ends_with(".cmp") || p.ends_with(".cms") {
+                "C11".to_string()
+            } else {
+                prop.to_string()
+            }
+        }
+        _ => prop.to_string(),
+    }
+}
 
 fn budget(_prop: &str, tier: Tier) -> u64 {
     match tier {
